@@ -170,7 +170,7 @@ def run_check(
     seen_known = set()
     for f in ctx.findings:
         k = known.get(f.key)
-        if k is not None and k.get("property") == property_id:
+        if k is not None and (k.get("property") == property_id or property_id in k.get("also", ())):
             if f.key not in seen_known:
                 print(f"KNOWN-FINDING: property={property_id} {f.rule} {f.where}: {k.get('what', f.message)}")
                 seen_known.add(f.key)
